@@ -168,6 +168,32 @@ def cols_scen(rng):
     return {"meta": meta, "sql": "SELECT id, had_changed(%s, %s)%s AS a0 FROM stream" % ("true" if ign else "false", ", ".join(cols), over), "rows": rows}
 
 
+def casewrap_scen(rng):
+    """a boolean analytic call inside a CASE: the item is the CASE of the call's value on this row (had_changed over one column, over
+    several, over the whole row)"""
+    ign = rng.choice([0, 1, 1])
+    kind = rng.choice(["one", "cols", "star", "star"])
+    rows = []
+    for i in range(rng.choice([5, 7, 9])):
+        r = {}
+        for c in ("a", "b"):
+            x = rng.choice([1, 1, 2, None, MISSING])
+            if x != MISSING: r[c] = x
+        rows.append(r)
+    t = "true" if ign else "false"
+    if kind == "one":
+        call = {"al": "a0", "fn": "had_changed", "col": "a", "off": 1, "hasdef": 0, "def": {"k": "null"}, "ign": ign, "start": 0, "reset": 0, "show": 0}
+        txt = "had_changed(%s, a)" % t
+    elif kind == "cols":
+        call = {"al": "a0", "fn": "had_changed_cols", "col": "a", "cols": ["a", "b"], "off": 1, "hasdef": 0, "def": {"k": "null"}, "ign": ign, "start": 0, "reset": 0, "show": 0}
+        txt = "had_changed(%s, a, b)" % t
+    else:
+        call = {"al": "a0", "fn": "had_changed_star", "col": "a", "off": 1, "hasdef": 0, "def": {"k": "null"}, "ign": ign, "start": 0, "reset": 0, "show": 0}
+        txt = "had_changed(%s, *)" % t
+    meta = {"fam": "analytic", "wraps": [{"al": "x", "op": "case01", "a": 1, "b": 1}], "calls": [call], "part": "", "conds": [], "wmode": "plain", "wop": ">", "wlit": 0}
+    return {"meta": meta, "sql": "SELECT CASE WHEN %s THEN 1 ELSE 0 END AS x FROM stream" % txt, "rows": rows, "norename": True}
+
+
 def nested_part_scen(rng):
     """PARTITION BY a nested column while the row also carries a top-level column named like its last segment"""
     fn = rng.choice(["lag", "acc_sum", "acc_count", "latest"])
@@ -235,6 +261,9 @@ def run(tier):
         scen.append(sc); scen.append(dict(sc, mode="sync"))
     for i in range(150 if quick else 3000):
         sc = cols_scen(rng)
+        scen.append(sc); scen.append(dict(sc, mode="sync"))
+    for i in range(100 if quick else 2000):
+        sc = casewrap_scen(rng)
         scen.append(sc); scen.append(dict(sc, mode="sync"))
     for i in range(80 if quick else 1500):
         sc = nested_part_scen(rng)
